@@ -68,7 +68,9 @@ static void judge(RunResult& res, const Caught& got, const char* phase_label) {
     if (!got.any) { std::ostringstream d; d << phase_label << ": " << fired.size() << " exception(s) were thrown inside the parallel phase (first: " << what_of(fired[0].exc_type) << ") but the caller received none"; res.fail("C15", "exception.lost", d.str()); return; }
     bool match = false; for (auto& f : fired) if (got.type == type_name_of(f.exc_type) && got.what == what_of(f.exc_type)) match = true;
     if (!match) {
-        bool natural = got.what.find("simulated fault") == std::string::npos;
+        // a cell may also fail on its own; the repository throws its own exception classes with a text, never a bare std::exception
+        // (that is what a sliced copy of any of them looks like)
+        bool natural = got.what.find("simulated fault") == std::string::npos && got.type != typeid(std::exception).name() && got.what != "std::exception";
         if (natural) { res.probes.hit("natural_exception_won"); return; }     // a cell failed on its own as well: that exception is as good as ours
         std::ostringstream d; d << phase_label << ": the caller received '" << got.what << "' of type " << got.type << ", which is none of the exceptions thrown inside the phase (e.g. '" << what_of(fired[0].exc_type) << "' of type " << type_name_of(fired[0].exc_type) << ")";
         res.fail("C15", "exception.altered", d.str());
